@@ -1,5 +1,5 @@
 CONSTANTS
-  REPAIRED = FALSE
+  REPAIRED = TRUE
   IntLen = 3
   IntAlpha = {"0", "7", "9", "-", "+", "L", "sp", "e7"}
   LitPre <- LitPreQ
